@@ -345,12 +345,12 @@ def run(ctx):
     for ch in (["a", "b", "c"], ["alpha", "beta"], ["x"], ["a b", "c-d", "e_f"]):
         for i in range(len(ch)):
             check_index_value(ctx, {"choices": ch, "index": i})
-    for pattern in ("(?i)^y", "^o"):
+    for pattern in ("(?i)^y", "^o", "^y", "^[a-z]+$", "^Y"):
         for default in (True, False):
-            for answer in (None, "", "y", "Y", "yes", "n", "no", "o", "oui", " y ", "yn", "maybe", "0", "true"):
+            for answer in (None, "", "y", "Y", "yes", "YES", "n", "N", "no", "o", "O", "oui", "OUI", " y ", "yn", "maybe", "0", "true"):
                 for interactive in (True, False):
                     check_confirm(ctx, {"pattern": pattern, "default": default, "answer": answer, "interactive": interactive}, True)
-    ctx.exhaustive("confirm", True, "2 patterns x 2 defaults x 14 answers x interactive on/off")
+    ctx.exhaustive("confirm", True, "5 patterns (case-insensitive and case-sensitive) x 2 defaults x 18 answers x interactive on/off")
     for ch in CHOICE_LISTS:
         for multi in (False, True):
             for default in defaults_for(ch, multi):
